@@ -131,6 +131,43 @@ Fixpoint merge_free (S : tsdoc) (F : list fragdef) (cf : nat) (fuel : nat) (T : 
   end.
 
 
+(** [keys_ok]: a response key of the flattened scope is carried by exactly one item, or only by leaf
+    selections (no sub-selection) of one field with one aliasing (so deep_merge only ever merges
+    Leaf/Empty fields of one type) *)
+Definition keys_ok (L : list fitem) : bool :=
+  forallb (fun it =>
+    let same := filter (fun it' => str_eqb (sel_key (fi_sel it')) (sel_key (fi_sel it))) L in
+    Nat.eqb (length same) 1
+    || forallb (fun it' => negb (sel_has_sub (fi_sel it'))
+                           && str_eqb (sel_name (fi_sel it')) (sel_name (fi_sel it))
+                           && Bool.eqb (sel_aliased (fi_sel it')) (sel_aliased (fi_sel it))) same) L.
+
+(** [merge_free_ld]: like [merge_free], with [keys_ok] in place of "pairwise distinct keys": repeated
+    LEAF keys are allowed *)
+Fixpoint merge_free_ld (S : tsdoc) (F : list fragdef) (cf : nat) (fuel : nat) (T : str) (sels : list selection)
+  {struct fuel} : bool :=
+  match fuel with
+  | O => false
+  | Datatypes.S g =>
+      match spread_names F cf sels with None => false | Some ns => nodup_keys ns end
+      && forallb (fun o =>
+           match flatS S F o cf sels with
+           | None => false
+           | Some L =>
+               keys_ok L
+               && forallb (fun it =>
+                    alias_ok (fi_sel it)
+                    && (if sel_has_sub (fi_sel it) then
+                          match sp_field_type S o (sel_name (fi_sel it)) with
+                          | Some t => merge_free_ld S F cf g (iname (ty_unwrapped t)) (sel_sub (fi_sel it))
+                          | None => true
+                          end
+                        else true)) L
+           end) (sp_possible S T)
+  end.
+
+
+
 (** the guards of a definition *)
 Definition guard_plain (S : tsdoc) (d : execdef) : bool :=
   match def_target S d with Some (_, sels) => plain_list sels | None => false end.
@@ -138,5 +175,11 @@ Definition guard_merge_free (S : tsdoc) (D : opdoc) (d : execdef) : bool :=
   nodup_frags (sp_frags D)
   && match def_target S d with
      | Some (T, sels) => merge_free S (sp_frags D) (doc_fuel D) (doc_fuel D) T sels
+     | None => false
+     end.
+Definition guard_merge_free_ld (S : tsdoc) (D : opdoc) (d : execdef) : bool :=
+  nodup_frags (sp_frags D)
+  && match def_target S d with
+     | Some (T, sels) => merge_free_ld S (sp_frags D) (doc_fuel D) (doc_fuel D) T sels
      | None => false
      end.
